@@ -1,6 +1,7 @@
 package props
 
 import (
+	"encoding/json"
 	"strings"
 	"testing"
 
@@ -46,7 +47,9 @@ func FuzzC01Triple(f *testing.F) {
 			}
 			vs := [3]eco.Ver{va, vb, vc}
 			if bad, detail := lawsOnTriple(func(i, j int) int { return vs[i].Compare(vs[j]) }); bad {
-				t.Fatalf("C01-FUZZ eco=%s check=laws %s", e.Name, detail)
+				kc.Detail = detail
+				b, _ := json.Marshal(kc)
+				t.Fatalf("C01-FUZZ eco=%s check=laws %s\nFUZZCASE %s", e.Name, detail, b)
 			}
 		}
 	})
@@ -69,13 +72,7 @@ func FuzzC18Version(f *testing.F) {
 			if _, err := e.NewVersion(s); err != nil {
 				continue
 			}
-			kc := known.Case{Property: "C18", Check: "version", Eco: e.Name, Inputs: []string{s, l, r, partner}}
-			if known.Match(kc) != "" {
-				continue
-			}
-			if bad, detail, _ := evalCase(kc); bad {
-				t.Fatalf("C18-FUZZ eco=%s check=version %s", e.Name, detail)
-			}
+			fuzzEval(t, known.Case{Property: "C18", Check: "version", Eco: e.Name, Inputs: []string{s, l, r, partner}})
 		}
 	})
 }
